@@ -1,6 +1,7 @@
 (* C17 property theorems.  Only `exact` of lemmas proved in the *_Proofs files. *)
 From Coq Require Import ZArith List.
-From PV Require Import C17.C17_Model C17.C17_Lists C17.C17_RM_Proofs C17.C17_Proofs.
+From PV Require Import C17.C17_Model C17.C17_Lists C17.C17_RM_Proofs C17.C17_Proofs C17.C17_Reopen.
+From PV Require C17.C17_Conc.
 Import ListNotations.
 Local Open Scope Z_scope.
 
@@ -74,3 +75,66 @@ Theorem consistent_preserved :
     Idle src cfg (snd (run_ops src cfg w ops)) /\ results_ok src cfg w ops.
 Proof. exact consistent_preserved_proof. Qed.
 Print Assumptions consistent_preserved.
+
+(* a NEW store object over an existing media file (store TTL expiry, or a new pool instance over the
+   same directory; ideal rebuild of the filled map assumed): CacheConsistent carries over provided
+   the media file's size is <= the source size and, if not page aligned, equal to it
+   (Example: any state reached by reads and whole-file evictions only). *)
+Theorem reopen_preserves_consistent : forall src cfg w,
+  Inv src cfg (w_st w) -> MediaSizeOK src cfg (w_st w) -> Inv src cfg (w_st (reopen w)).
+Proof. exact reopen_inv_proof. Qed.
+Print Assumptions reopen_preserves_consistent.
+
+(* FINDING C17-F1: the side condition is not maintained by a trim at a non-page-aligned offset
+   (CachedFile::fallocate(mode, offset, -1)): from a consistent store, trim at 5, re-create the
+   store, read byte 6 of the 10-byte source -> 0 bytes, where the source has 1. *)
+Theorem trim_then_reopen_refuted :
+  Good f1_src f1_cfg f1_w0 /\
+  fst (preadv2 f1_src f1_cfg false false f1_w2 6 1) = 0 /\
+  Z.max 0 (Z.min 1 (zlen f1_src - 6)) = 1 /\
+  ~ MediaSizeOK f1_src f1_cfg (w_st (evict f1_w0 5 (-1))).
+Proof. exact trim_then_reopen_refuted_proof. Qed.
+Print Assumptions trim_then_reopen_refuted.
+
+(* ---- the interleaving model (C17_Conc.v): any number of readers, inline and asynchronous
+   write-back, whole-file eviction under the exclusive rw lock, range-lock dedup, reuse of the
+   directory by a new pool instance; every interleaving of its steps, no bound on length. *)
+
+(* between a hole query that answered "no hole" and the C17_Conc.media read that follows it, every byte the
+   thread is about to read is still C17_Conc.filled and equals the source: no eviction falls in between *)
+Theorem read_atomic_vs_evict : forall (src : C17_Conc.bytes) (s : C17_Conc.state) (t : nat),
+  C17_Conc.reachable src s ->
+  match C17_Conc.pcs s t with
+  | C17_Conc.RHit off cnt => forall x, C17_Conc.inr off (off + cnt) x -> C17_Conc.filled s x = true /\ C17_Conc.media s x = src x
+  | C17_Conc.RRemHit off cnt u => forall x, C17_Conc.inr off (off + cnt) x -> u x = None -> C17_Conc.filled s x = true /\ C17_Conc.media s x = src x
+  | _ => True
+  end.
+Proof. exact C17_Conc.read_atomic_vs_evict_proof. Qed.
+Print Assumptions read_atomic_vs_evict.
+
+(* an eviction of a non-empty cache is only ever a C17_Conc.step of the model when no thread is inside a
+   shared (read-lock) section *)
+Theorem evict_excluded_in_read_section : forall (src : C17_Conc.bytes) (s : C17_Conc.state) (m' : C17_Conc.bytes),
+  C17_Conc.step src s (C17_Conc.mkS (fun _ => false) m' (C17_Conc.pcs s)) -> (exists x, C17_Conc.filled s x = true) ->
+  forall t, ~ C17_Conc.in_shared (C17_Conc.pcs s t).
+Proof. exact C17_Conc.evict_excluded_in_read_section_proof. Qed.
+Print Assumptions evict_excluded_in_read_section.
+
+(* for every interleaving: a read that returns its count has delivered the source's C17_Conc.bytes *)
+Theorem read_returns_source_concurrent : forall (src : C17_Conc.bytes) (s : C17_Conc.state) (t : nat) (off cnt : Z) (u : C17_Conc.ubuf),
+  C17_Conc.reachable src s -> C17_Conc.pcs s t = C17_Conc.RDone off cnt u -> forall x, off <= x < off + cnt -> u x = Some (src x).
+Proof. exact C17_Conc.read_returns_source_concurrent_proof. Qed.
+Print Assumptions read_returns_source_concurrent.
+
+(* CacheConsistent is an invariant of every interleaving *)
+Theorem cache_consistent_concurrent : forall (src : C17_Conc.bytes) (s : C17_Conc.state),
+  C17_Conc.reachable src s -> forall x, C17_Conc.filled s x = true -> C17_Conc.media s x = src x.
+Proof. exact C17_Conc.cache_consistent_concurrent_proof. Qed.
+Print Assumptions cache_consistent_concurrent.
+
+(* ranges being refilled by different threads (readers or write-back threads) never overlap *)
+Theorem refill_dedup : forall (src : C17_Conc.bytes) (s : C17_Conc.state) (t t' : nat) (a b a' b' : Z),
+  C17_Conc.reachable src s -> t <> t' ->
+  C17_Conc.holds_range (C17_Conc.pcs s t) = Some (a, b) -> C17_Conc.holds_range (C17_Conc.pcs s t') = Some (a', b') -> b <= a' \/ b' <= a.
+Proof. exact C17_Conc.refill_dedup_proof. Qed.
+Print Assumptions refill_dedup.
